@@ -328,6 +328,15 @@ func ReplayMain(args []string) {
 		fmt.Fprintln(os.Stderr, err)
 		os.Exit(2)
 	}
+	if rp.Golden != "" {
+		if d := GoldenCheckOne(rp.Golden); d != "" {
+			fmt.Printf("class=%s\ngolden %s: %s\n", rp.Violation.Class, rp.Golden, d)
+			fmt.Printf("VIOLATION property=%s replay=%s\n", rp.Property, fs.Arg(0))
+			os.Exit(1)
+		}
+		fmt.Println("no violation")
+		os.Exit(0)
+	}
 	sched.OnStuck = func(desc, stack string) {
 		if what, ok := stuckInCodeUnderTest(stack); ok {
 			fmt.Printf("class=blocked-forever:%s\n%s\n%s\n", what, desc, stack)
@@ -538,6 +547,27 @@ func CheckMain(args []string) {
 			}
 		}
 	}
+	goldenInfo := map[string]interface{}{}
+	if *prop == "C09" {
+		bad, n := GoldenCheckAll(*root)
+		goldenInfo["golden_directories_checked"] = n
+		goldenInfo["golden_directories_failed"] = len(bad)
+		names := make([]string, 0, len(bad))
+		for name := range bad {
+			names = append(names, name)
+		}
+		sort.Strings(names)
+		for _, name := range names {
+			rp := &Replay{Property: "C09", Golden: filepath.Join(*root, "golden", name),
+				Violation: &Violation{Property: "C09", Oracle: "golden", Class: "golden:" + name, Message: bad[name]}}
+			path := filepath.Join(replays, "C09-golden-"+name+".json")
+			rp.Write(path)
+			merged.Violations = append(merged.Violations, FoundViolation{Class: "golden:" + name, Oracle: "golden", Message: "directory written by the pinned version: " + bad[name], Replay: path})
+		}
+		if n == 0 {
+			trouble = append(trouble, "no golden directories found under "+filepath.Join(*root, "golden"))
+		}
+	}
 	wall := time.Since(start).Seconds()
 
 	// validate each reported violation by replaying it in a fresh process
@@ -612,6 +642,9 @@ func CheckMain(args []string) {
 		"exhaustive":               false,
 	}
 	for k, v := range merged.Extra {
+		cov[k] = v
+	}
+	for k, v := range goldenInfo {
 		cov[k] = v
 	}
 	ev["coverage"] = cov
